@@ -209,6 +209,25 @@ func c08Case(c *fw.Ctx, r *rng.R, tree *spec.Spec, muts int) {
 	}
 	guard(c, in, func() {
 		orig := drive.Build(r, tree)
+		if r != nil && r.Chance(1, 5) {
+			// derived structures (user types embedding an Object / List) are containers too: they are stored in the source,
+			// with plain containers inside them; the reference content is what the walker sees afterwards
+			drive.Protect(func() {
+				d1 := NewDObject("own", 1, "inner", at.NewList(1, at.NewObject("deep", 2)))
+				d2 := NewDDList(1, at.NewList("x"), at.NewObject("k", at.NewList()))
+				switch x := orig.(type) {
+				case at.List:
+					x.Insert(r.Intn(x.Count()+1), d1)
+					x.Add(d2)
+				case at.Object:
+					x.Set("derived-object", d1, "derived-list", d2)
+				}
+			})
+			if w, err := drive.Walk(orig); err == nil {
+				tree = w.ToSpec()
+				c.Count("sources_with_derived_structures")
+			}
+		}
 		clone := cloneOf(orig)
 		c.Distinct(tree.Canon())
 		c.Max("max_depth", int64(tree.Depth()))
